@@ -27,7 +27,8 @@ RULE = (
     "width per input, 1-3 inputs, 1-2 outputs, smooth quadratic+sine target), a regressor (Linear with/without intercept and "
     "penalty, Polynomial degree 2-3, RBF x 7 kernels x epsilon factor x smooth, TPS, PCE degree 2, hard MOE with 2 clusters, "
     "RegressorChain of 2 models, OT Gaussian process), input/output transformers on the whole groups (none, MinMaxScaler, "
-    "StandardScaler, Scaler(offset, coefficient), full-rank PCA, Pipeline of two) and query points inside the hull. "
+    "StandardScaler, Scaler(offset, coefficient), full-rank PCA, Pipeline of two) and query points inside the hull; transformers alone "
+    "additionally cover Power, BoxCox, YeoJohnson, full-rank PLS and full-rank KLSVD. "
     "Non-trivial = non-identity transformer or non-default kernel with >= 2 inputs; distinct = hash of the drawn case."
 )
 ASSUMPTIONS = [
@@ -333,7 +334,7 @@ def transformer_cases(draw):
     dim = draw(st.integers(1, 3))
     return {
         "dim": dim, "n": draw(st.integers(8, 20)),
-        "name": draw(st.sampled_from(["minmax", "standard", "scaler", "pca", "pca_scaled", "pipeline", "pipeline_pca", "power", "boxcox", "yeojohnson", "pipeline_power"])),
+        "name": draw(st.sampled_from(["minmax", "standard", "scaler", "pca", "pca_scaled", "pipeline", "pipeline_pca", "power", "boxcox", "yeojohnson", "pipeline_power", "pls", "klsvd"])),
         "offset": draw(st.lists(st.sampled_from([0.5, 1.0, 5.0, 100.0]), min_size=3, max_size=3)),
         "width": draw(st.lists(st.sampled_from([1.0, 0.5, 3.0, 10.0]), min_size=3, max_size=3)),
         "jitter": draw(st.lists(st.integers(-3, 3), min_size=8, max_size=8)),
@@ -364,15 +365,30 @@ def case_transformer(p, ctx):
     data = off + (unit @ mix.T) * wid + 0.0
     data = data - data.min(axis=0) + off  # strictly positive (power transforms)
     name = p["name"]
+    scale0 = float(np.abs(data).max())
     power = {"power": Power, "boxcox": BoxCox, "yeojohnson": YeoJohnson}
     if name in power:
         tr = power[name]()
     elif name == "pipeline_power":
         tr = Pipeline(transformers=[Scaler(offset=1.0, coefficient=0.5), BoxCox()])
+    elif name == "pls":
+        from gemseo.mlearning.transformers.dimension_reduction.pls import PLS
+
+        tr = PLS(n_components=dim)  # full rank: a lossless linear reduction
+    elif name == "klsvd":
+        from gemseo.mlearning.transformers.dimension_reduction.klsvd import KLSVD
+
+        mesh = np.linspace(0.0, 1.0, dim)[:, None] if dim > 1 else np.array([[0.0]])
+        tr = KLSVD(mesh, n_components=dim)  # full rank: a lossless linear reduction
     else:
         tr = make_transformer(name, dim)
     ctx.cls(f"transformer_{name}")
-    tr.fit(data.copy())
+    if name == "pls":
+        # PLS is supervised: smooth targets of the data, as many as components
+        targets = np.column_stack([np.sin(data @ np.arange(1.0, dim + 1.0) / scale0 + k) + data[:, k % dim] / scale0 for k in range(dim)])
+        tr.fit(data.copy(), targets)
+    else:
+        tr.fit(data.copy())
     z = data.min(axis=0) + np.array(p["query"][:dim]) * (data.max(axis=0) - data.min(axis=0))
     scale = float(np.abs(data).max())
     t = np.asarray(tr.transform(data.copy()))
@@ -387,7 +403,7 @@ def case_transformer(p, ctx):
         jinv = np.asarray(tr.compute_jacobian_inverse(tz.copy()))
     except NotImplementedError:
         ctx.cls("transformer_without_jacobian")
-        ctx.check(name in ("power", "boxcox", "yeojohnson", "pipeline_power"), "transformer_jacobian", f"{name} does not provide its Jacobian")
+        ctx.check(name in ("power", "boxcox", "yeojohnson", "pipeline_power", "pls", "klsvd"), "transformer_jacobian", f"{name} does not provide its Jacobian")
         ctx.sample({"oracle": "transformer", "name": name, "dim": dim, "n": n})
         return
     jac, jinv = jac.reshape(jac.shape[-2:]), jinv.reshape(jinv.shape[-2:])
